@@ -229,7 +229,7 @@ pub fn main(tier: Tier, replay: Option<serde_json::Value>) -> i32 {
         let pp = crate::setup::truncate_pp(&full, points);
         let prog = sized(it.c, &it.shape);
         let obs = e1::pipeline(&prog, &pp, &it.label, (true, true, true));
-        (obs.constraints == it.c, obs)
+        (obs.constraints == it.c, obs.slim())
     });
     let mut layouts = std::collections::HashSet::new();
     for (it, o) in items.iter().zip(outs) {
@@ -270,7 +270,7 @@ pub fn main(tier: Tier, replay: Option<serde_json::Value>) -> i32 {
     let outs = crate::par::par_map(&progs, |p| {
         let prog = e1::program_prog(&alpha, p);
         let label: &[u8] = if p.ops.len() % 2 == 0 { b"" } else { b"e1-label9" };
-        e1::pipeline(&prog, &pp, label, (true, true, true))
+        e1::pipeline(&prog, &pp, label, (true, true, true)).slim()
     });
     for (p, o) in progs.iter().zip(outs) {
         match o {
